@@ -495,6 +495,7 @@ class Interp:
 
     def _exec_for(self, s, env):
         it = self.eval(s.iter, env)
+        self.log("for_iter", s, iter=it)
         items = None
         if isinstance(it, (TupV, SetV)):
             items = it.items
